@@ -16,7 +16,7 @@ TECH = "deterministic simulation with fault injection (seeded plans, fake clock,
 CHECKS = {
     "C01": {
         "level_text": "seeded search over topologies x fault histories x delivery delays with the real Netceptor code on a simulated clock "
-                      "and network; final tables compared with an independent all-pairs shortest path computation",
+                      "and network; final tables compared with an independent all-pairs shortest path computation. Also: restarts on aged meshes, and a stale-incarnation scenario in which a stalled path (Hold/Release) delivers an update of a node's previous incarnation right after its restart.",
         "level_note": "sampling, not enumeration; FIFO control links; trusted base: Go synctest fake clock, simnet transport",
         "level": "exploration",
         "quick": {"runs": 480, "per_proc": 30},
@@ -33,7 +33,7 @@ CHECKS = {
     "C02": {
         "level": "exploration",
         "level_text": "seeded search over node/service names, payload sizes up to the MTU, topologies mixing datagram links and framed byte "
-                      "streams with seeded fragmentation, concurrent senders; every received datagram is matched against the multiset of sends",
+                      "streams with seeded fragmentation, concurrent senders; every received datagram is matched against the multiset of sends The thorough tier ends with a race-detector pass of the same scenarios (data races among a node's senders).",
         "level_note": "sampling; 64-bit name-hash collisions are out of reach of random search; trusted base as C01",
         "quick": {"runs": 400, "per_proc": 25},
         "thorough": {"runs": 30000, "per_proc": 100},
@@ -80,7 +80,7 @@ CHECKS = {
         "level": "exploration",
         "level_text": "seeded sequences of hostile datagrams and raw stream bytes (grammar over every message type, JSON shape and field "
                       "type substitution, data headers, broken framing) fed by scripted peers to a real node in both protocol phases, with a "
-                      "liveness probe through the victim for two well-behaved peers after every input; a worker crash or a wedge is the violation",
+                      "liveness probe through the victim for two well-behaved peers after every input; a worker crash or a wedge is the violation. Also: a three-way coincidence phase (route flood, first update about an unknown node, reject - all in one instant) with real-time pauses at every lock site of pkg/netceptor (lock-site yields added to a scratch copy at build time).",
         "level_note": "sampling of an unbounded input space; messages that are valid protocol requests (e.g. a well-formed routing update about a "
                       "real node, a duplicate-node notice) are honoured by design and are not generated",
         "quick": {"runs": 640, "per_proc": 40},
@@ -99,7 +99,7 @@ CHECKS = {
         "level_text": "model-based: seeded histories of handshakes, later updates, session ends and simultaneous same-ID handshakes by "
                       "scripted peers against a real node with drawn allow-lists, default costs and per-node overrides; an executable "
                       "admission model written from the property text is stepped in lockstep and compared with Status() after every step; "
-                      "plus the two-real-nodes-one-ID scenario on 3-5 node meshes",
+                      "plus the two-real-nodes-one-ID scenario on 3-5 node meshes. Also: handshakes held in their hand-off by a peer that stops reading, and a session that ends while its receive loop is parked forwarding to a stalled neighbour, followed by reconnects under the same ID.",
         "level_note": "sampling; the reject message itself is best effort in the code (writer/close race) and only counted; same-ID claimants "
                       "attach to different neighbours and start >= 1.1 s apart",
         "quick": {"runs": 800, "per_proc": 50},
@@ -115,7 +115,7 @@ CHECKS = {
         "level_text": "seeded rule lists (literal and /regex/ patterns, any field subset, key/action case, malformed entries) installed on the "
                       "three nodes of a chain through ParseFirewallRules; 54 packets per run over all node pairs and a service alphabet; a "
                       "reference first-match evaluator written from the property text is walked along the path and along the way back of "
-                      "the rejection notice, and compared with what the sockets observe",
+                      "the rejection notice, and compared with what the sockets observe. Also: the rule list replaced (reload) while a packet is between two of its rules (a harness rule function opens the window).",
         "level_note": "sampling of rule lists; the packet cross product per rule list is complete for the 3-node chain and the service alphabet",
         "quick": {"runs": 1200, "per_proc": 60},
         "thorough": {"runs": 100000, "per_proc": 300},
@@ -130,7 +130,7 @@ CHECKS = {
         "level_text": "seeded cases on 2-5 node meshes: datagrams and stream dials to services that are unbound, bound, or closed at a drawn "
                       "offset (1 us - 300 ms) before/after the packet's arrival, with 1-8 unrelated sockets on the sender and a watcher socket "
                       "on every other node; the notice must arrive exactly once, on exactly the sending socket, echoing the packet; dials must "
-                      "be abandoned by the notice; policy drops must be silent",
+                      "be abandoned by the notice; policy drops must be silent. Also: tight hop budgets, sockets of the sender closed at the instant the notice arrives, and a slow consumer of notices on the sender while the case's socket is opened.",
         "level_note": "sampling; arrival instants are computed from the simulated link latencies (unique to the nanosecond), so 'closed before' "
                       "and 'closed after' are exact; the window inside handleMessageData between lookup and delivery is covered under C17",
         "quick": {"runs": 320, "per_proc": 20},
@@ -147,7 +147,7 @@ CHECKS = {
         "level_text": "seeded open/close histories of advertised datagram and stream listeners on 3-6 node cyclic meshes with per-link delays of "
                       "1-400 ms (an advertisement and its withdrawal race over different paths), late joiners and node deaths; monitors sampled "
                       "every 150 ms: listed time never decreases, nothing at or before a learned withdrawal is listed; after settling: listing "
-                      "== open advertised services on reachable live nodes; message budget and inter-round quiescence bound the flooding",
+                      "== open advertised services on reachable live nodes; message budget and inter-round quiescence bound the flooding. Also: close/re-open flaps, datagram links that reorder (up to 7 s, longer than the 5 s advertisement delay), a listener closed between collection and transmission of an advertisement round, and the invariant that a listed entry disappears only after a withdrawal at least as new.",
         "level_note": "sampling; in-order links; one known finding (F12: nothing expires the advertisements of a dead or cut-off node)",
         "quick": {"runs": 480, "per_proc": 30},
         "thorough": {"runs": 40000, "per_proc": 100},
@@ -164,7 +164,7 @@ CHECKS = {
                       "file-step trace is recorded fault-free and the scenario is re-run with the daemon killed at each step index (quick: 8 "
                       "sampled indices per scenario, thorough: all), plus 0-2 further crash/restart cycles at drawn steps or quiescent "
                       "instants; after the last restart every acknowledged unit must be listed with its work type, finished units with their "
-                      "outcome, size and complete output, never-started units failed, and no query may block",
+                      "outcome, size and complete output, never-started units failed, and no query may block A third of the runs use a remote unit instead: controller and executor (both real Workceptor + control service) across the simulated mesh, the controller killed at a drawn step or instant and restarted; binding, outcome and bytes must survive.",
         "level_note": "a killed process loses nothing the kernel already has, so the real files are the durable state (power loss is outside "
                       "the property); the per-unit runner is the stub (same write protocol through the real StatusFileData primitives); one "
                       "known finding (F13)",
@@ -187,7 +187,7 @@ CHECKS = {
         "level_text": "seeded producers (0-7 writes of boundary sizes around the 64 KiB read buffer, pauses 0-1.5 s, empty output, no stdout "
                       "file, failing exit) and readers asking for results from offsets {0, 1, size-1, size, middle, 65535..65537, random} at "
                       "drawn moments before, during and after the run, plain and JSON command forms, several readers at once; bytes after "
-                      "the header must equal output[p:], and the stream must end after, not before, completion",
+                      "the header must equal output[p:], and the stream must end after, not before, completion A quarter of the runs use a remote unit: the controller's copy must be a prefix of the executor's output at every 41 ms poll and become equal to it, across link cuts and silences, executor and relay restarts, and a silence placed exactly where the executor starts answering a results request.",
         "level_note": "local part; the remote mirroring part (link cuts, relay restarts) is listed in DESIGN.md as not built yet",
         "quick": {"runs": 600, "per_proc": 60},
         "thorough": {"runs": 50000, "per_proc": 200},
@@ -250,7 +250,7 @@ CHECKS = {
                       "with a field of every wrong JSON type, work subcommands with missing/extra/mistyped arguments, unknown, disk-only and "
                       "path-character unit IDs, over-long and unterminated lines, binary, disconnects mid-line and mid-submit) from 4 concurrent "
                       "sessions (unix and tcp) against a node with units in several states; a line that is not a valid command must be "
-                      "answered with ERROR; after every input the same session and a fresh one must answer status / work list / ping",
+                      "answered with ERROR; after every input the same session and a fresh one must answer status / work list / ping. Also: sessions that overlap inside one another's commands (list/status inside a release's removal window; two first touches of a disk-only unit).",
         "level_note": "sampling of an unbounded input space; process crash or wedge (watchdog + goroutine dump) is the violation",
         "quick": {"runs": 480, "per_proc": 30},
         "thorough": {"runs": 40000, "per_proc": 100},
@@ -269,7 +269,7 @@ CHECKS = {
                       "against the simulated clock incl. a token that expires while waiting, other audience/key, alg none, HMAC keyed with the "
                       "public key, tampered payload, ...), each against a freshly created target unit; the verdict of an independent table "
                       "written from the property text is compared with the reply, and on refusal the unit directories, record identity and "
-                      "streamed bytes must be unchanged",
+                      "streamed bytes must be unchanged. Also: spellings of the protected type's name that are not its name, and a token honoured once and replayed after its expiry.",
         "level_note": "the table is finite; runs sample it (8-24 cells per run) and evidence lists the distinct cells covered; RS256 and "
                       "no-expiry tokens signed by the configured key are not decided by the property text and only counted; mesh-stream "
                       "sessions behave as tcp for this property (anything that is not the unix socket) and are not driven separately",
@@ -288,7 +288,7 @@ CHECKS = {
                       "values, remote submissions with no / a real / an unknown TLS client profile, then histories of status / list / cancel / "
                       "force-release and crash-restarts (records are reloaded from disk, where secrets are kept); no marker of a secret "
                       "parameter may occur in any byte sent to a control client, all other parameters must be reported unchanged, and a "
-                      "submission with secrets and no TLS profile must be refused leaving no file and causing no mesh traffic",
+                      "submission with secrets and no TLS profile must be refused leaving no file and causing no mesh traffic. Also: the node killed at a drawn file step during the submission and restarted, and submissions that fail half-way (unparsable ttl); every later listing is scanned.",
         "level_note": "sampling; the remote node is unreachable, so what is sent to it once a TLS profile is named is not observed here",
         "quick": {"runs": 600, "per_proc": 50},
         "thorough": {"runs": 60000, "per_proc": 200},
@@ -306,7 +306,7 @@ CHECKS = {
                       "direction, n), optionally with the first link of the active path cut while a more expensive path exists; the same "
                       "transfers through the control service's connect bridge and through BridgeConns with a simulated TCP-side pipe; "
                       "bytes read must equal bytes written in order, end-of-stream only after all data, completion within 400 s after "
-                      "faults stop",
+                      "faults stop. Also: other dials to the same service abandoned before or after their handshake, and a neighbouring stream whose far listener disappears while it keeps writing.",
         "level_note": "quic-go runs with every clock read 1 ns late (sim/overlay/README) so that its strict deadline comparisons work on a "
                       "clock that lands exactly on timer deadlines; QUIC packet counts are not bit-reproducible; one known finding (F15)",
         "quick": {"runs": 320, "per_proc": 20},
@@ -331,7 +331,7 @@ CHECKS = {
                       "the instant it is closed and seeded pauses inside the lookup-to-delivery window; a crash or lock cycle is a violation; "
                       "after everything is closed and 50 s (QUIC idle timeout + margin) have passed the listener registries must be empty "
                       "and the goroutines of receptor/quic-go code must be back at the baseline; after Shutdown none may remain and nothing "
-                      "may be sent",
+                      "may be sent. Also: sockets opened and closed by application goroutines at the time of the shutdown.",
         "level_note": "goroutines started by the application (readers, acceptors) are not counted; the leak criterion is absolute (baseline), "
                       "which is stricter than 'does not grow with history'",
         "quick": {"runs": 400, "per_proc": 25},
@@ -354,7 +354,7 @@ CHECKS = {
                       "observed at three layers: the installed VerifyPeerCertificate, a TLS handshake over a simulated pipe "
                       "(PrepareTLS*Config / GetClientTLSConfig output), and a mutually authenticated QUIC stream listener on a two-node mesh "
                       "where the dialling node presents the certificate under test; an independent decision procedure written from the "
-                      "property text gives the expected verdict",
+                      "property text gives the expected verdict. Also: histories on one long-lived TLS configuration (several clients on one listener configuration, repeated lookups of one client configuration), and overlapping handshakes of a legitimate node and an impostor on one mutually authenticated listener.",
         "level_note": "the product is finite; a run samples 43-123 cells, the time dimension and the mesh identity binding are the simulated parts; "
                       "certificates use ECDSA keys from an in-harness CA (the property is about verification, not issuance: that is C20)",
         "quick": {"runs": 200, "per_proc": 20},
